@@ -26,6 +26,14 @@ pub struct Scn {
 pub struct C01;
 
 pub fn gen(rng: &mut Rng, tier: Tier) -> Scn {
+    if rng.chance(0.008) {
+        // one object with many source blocks (SBNs beyond 8 bits, beyond what the receiver preallocates)
+        let sender = super::c08::gen_many_blocks(rng);
+        let mut recv = RecvSpec::basic();
+        recv.md5_check = true;
+        recv.object_timeout_ms = Some(3_600_000);
+        return Scn { sender, recv, fs_writer: false, cleanup_every: 0 };
+    }
     let max_symbols = if tier == Tier::Quick { 300 } else { 1500 };
     let tiny_fdt = rng.chance(0.1);
     let soti = if tiny_fdt {
